@@ -17,9 +17,14 @@ Rewrites (each preserves the value of every expression and the order of all side
   split-or-guard         if a or b: exit        ->   if a: exit ; if b: exit
   ifexp-to-if            t = A if c else B      ->   if c: t = A else: t = B
   reword-error           the text of an error message is changed (type unchanged)
-  exchange / aliasparam / deadbranch / wraptrue / pluszero / demorgan : adversarial-style rewrites (names of two locals exchanged
+  exchange / aliasparam / deadbranch / wraptrue / pluszero / demorgan / shapesize / shapeidx / lenshape / kwpos / dimaxis / unpackshape / enumloop : adversarial-style rewrites (names of two locals exchanged
                          consistently, a parameter read through an alias, `if False: raise`, body wrapped in `if True:`, `e + 0` in an
-                         index, De Morgan on a two-operand test)
+                         index, De Morgan on a two-operand test, `p.shape[k]` of a torch parameter
+                         read as `p.size(k)`, `p.shape[-1]` of a
+                         parameter documented with rank 3 read as `p.shape[2]`, `p.shape[0]` of a tensor parameter read as `len(p)` and back, one argument of a
+                         call of a package function moved between positional and keyword form, the
+                         dimension argument of a torch reduction spelled dim= / axis= / positionally, the extents of a parameter of documented rank read
+                         through `a, b, c = p.shape`, `for i in range(len(xs))` with xs[i] <-> `for i, x in enumerate(xs)`)
 usage: python -m tmverif.preserve <PID> --funcs mod.func,mod.func [--jobs 16] [--json out.json]
 """
 import ast, copy, json, os, shutil, subprocess, sys, tempfile
@@ -163,8 +168,179 @@ def rewrites_of(func):
     for idx, n in enumerate(nodes):
         if isinstance(n, ast.If) and isinstance(n.test, ast.BoolOp) and len(n.test.values) == 2:
             out.append(("de-morgan @%d `if %s`" % (n.lineno, ast.unparse(n.test)[:40]), ("demorgan", idx)))
+    for k, x in enumerate(shape_nodes(func)[:6]):
+        out.append(("shape-size @%d `%s` -> .size(k)" % (x.lineno, ast.unparse(x)), ("shapesize", k)))
+    for k, (x, v, alt) in enumerate(shape_index_nodes(func)[:6]):
+        out.append(("shape-index @%d `%s` -> [%d]" % (x.lineno, ast.unparse(x), alt), ("shapeidx", k)))
+    for k, x in enumerate(len_shape_nodes(func)[:6]):
+        out.append(("len-shape @%d `%s`" % (x.lineno, ast.unparse(x)), ("lenshape", k)))
+    for k, (x, how) in enumerate(kwpos_nodes(func)[:8]):
+        out.append(("kw/pos @%d `%s` %s" % (x.lineno, ast.unparse(x.func), how), ("kwpos", k)))
+    for k, (x, how) in enumerate(dimaxis_nodes(func)[:8]):
+        out.append(("dim/axis @%d `%s` %s" % (x.lineno, ast.unparse(x)[:40], how), ("dimaxis", k)))
+    for k, (st, p_, r) in enumerate(unpack_sites(func)[:6]):
+        out.append(("unpack-shape @%d `%s.shape` read through `_d0..` before `%s`" % (st.lineno, p_, ast.unparse(st)[:30]), ("unpackshape", k)))
+    for k, (lp, how) in enumerate(enum_loops(func)[:8]):
+        out.append(("loop-form @%d `for %s in %s` %s" % (lp.lineno, ast.unparse(lp.target), ast.unparse(lp.iter)[:30], how), ("enumloop", k)))
     out.append(("nop statement at the top", ("nop", 0)))
     return out
+
+
+from .canon import _untouched
+
+
+def enum_loops(func):
+    out = []
+    for lp in ast.walk(func):
+        if not isinstance(lp, ast.For) or lp.orelse:
+            continue
+        it = lp.iter
+        if isinstance(it, ast.Call) and isinstance(it.func, ast.Name) and it.func.id == "enumerate" and len(it.args) == 1 and not it.keywords \
+                and isinstance(it.args[0], ast.Name) and isinstance(lp.target, ast.Tuple) and len(lp.target.elts) == 2 and \
+                isinstance(lp.target.elts[0], ast.Name):
+            e, i = it.args[0].id, lp.target.elts[0].id
+            if _untouched(lp.body, e) and _untouched(lp.body, i) and e != i:
+                out.append((lp, "enumerate -> range(len())"))
+        elif isinstance(it, ast.Call) and isinstance(it.func, ast.Name) and it.func.id == "range" and len(it.args) == 1 and \
+                isinstance(lp.target, ast.Name):
+            a = it.args[0]
+            e = None
+            if isinstance(a, ast.Call) and isinstance(a.func, ast.Name) and a.func.id == "len" and len(a.args) == 1 and isinstance(a.args[0], ast.Name):
+                e = a.args[0].id
+            elif isinstance(a, ast.Subscript) and isinstance(a.value, ast.Attribute) and a.value.attr == "shape" and \
+                    isinstance(a.value.value, ast.Name) and isinstance(a.slice, ast.Constant) and a.slice.value == 0:
+                e = a.value.value.id
+            i = lp.target.id
+            reads = [x for st in lp.body for x in ast.walk(st) if isinstance(x, ast.Subscript) and isinstance(x.ctx, ast.Load) and
+                     isinstance(x.value, ast.Name) and x.value.id == e and isinstance(x.slice, ast.Name) and x.slice.id == i]
+            if e and e != i and reads and _untouched(lp.body, i) and _untouched([s for s in lp.body], e):
+                out.append((lp, "range(len()) -> enumerate"))
+    return sorted(out, key=lambda t: t[0].lineno)
+
+
+def unpack_sites(func):
+    """simple statements that read p.shape[k] of a parameter with documented rank r: `_d0, .., _d{r-1} = p.shape` placed directly
+    before the statement yields the same extents"""
+    from .canon import _doc_ranks, _shape_reads, rank_stable
+    out = []
+    ranks = {p_: r for p_, r in _doc_ranks(func).items() if p_ in {a.arg for a in func.args.args} and rank_stable(func, p_)}
+    for st in ast.walk(func):
+        if isinstance(st, (ast.Assign, ast.AugAssign, ast.Return, ast.Expr)) and not any(
+                isinstance(x, (ast.Lambda, ast.ListComp, ast.GeneratorExp, ast.SetComp, ast.DictComp, ast.IfExp, ast.BoolOp)) for x in ast.walk(st)):
+            for p_, r in sorted(ranks.items()):
+                if any(-r <= v < r for _, v in _shape_reads(st, p_)) and not any(
+                        isinstance(x, ast.Name) and x.id == p_ and isinstance(x.ctx, ast.Store) for x in ast.walk(st)):
+                    out.append((st, p_, r))
+    return sorted(out, key=lambda t: (t[0].lineno, t[1]))
+
+
+DIM_FUNCS = ("sum", "mean", "max", "min", "argmax", "argmin", "cumsum", "any", "all", "prod", "cat", "stack", "softmax", "log_softmax",
+             "logsumexp", "flip", "std", "var", "amax", "amin")
+
+
+def dimaxis_nodes(func):
+    """torch reductions / concatenations whose dimension argument can be spelled dim=, axis= or positionally"""
+    out = []
+    for n in ast.walk(func):
+        if not (isinstance(n, ast.Call) and isinstance(n.func, ast.Attribute) and n.func.attr in DIM_FUNCS):
+            continue
+        fn = isinstance(n.func.value, ast.Name) and n.func.value.id == "torch"
+        if isinstance(n.func.value, ast.Name) and n.func.value.id in ("numpy", "np", "math"):
+            continue
+        kw = [k for k in n.keywords if k.arg in ("dim", "axis")]
+        if len(kw) != 1 or any(isinstance(a, ast.Starred) for a in n.args):
+            continue
+        torchish = fn or kw[0].arg == "dim"
+        if not torchish:
+            continue
+        out.append((n, "dim= -> axis=" if kw[0].arg == "dim" else "axis= -> dim="))
+        if len(n.args) == (1 if fn else 0) and n.func.attr not in ("flip",):
+            out.append((n, "keyword -> positional"))
+    return sorted(out, key=lambda t: (t[0].lineno, t[0].col_offset, t[1]))
+
+
+_SIGS = None
+
+
+def package_signatures():
+    """module-level function name -> positional parameter names, for names with ONE definition in the package"""
+    global _SIGS
+    if _SIGS is None:
+        seen = {}
+        for dp, dn, fn in os.walk(os.path.join(REPO, "tangermeme")):
+            for f in fn:
+                if f.endswith(".py"):
+                    try:
+                        t = ast.parse(open(os.path.join(dp, f)).read())
+                    except (OSError, SyntaxError):
+                        continue
+                    for n in t.body:
+                        if isinstance(n, ast.FunctionDef) and not n.args.posonlyargs:
+                            seen.setdefault(n.name, []).append([a.arg for a in n.args.args])
+        _SIGS = {k: v[0] for k, v in seen.items() if len(v) == 1}
+    return _SIGS
+
+
+def kwpos_nodes(func):
+    """calls of package functions where one argument can change between positional and keyword form without changing the binding"""
+    sig = package_signatures()
+    shadow = {n.id for n in ast.walk(func) if isinstance(n, ast.Name) and isinstance(n.ctx, ast.Store)} | {a.arg for a in func.args.args}
+    out = []
+    for n in ast.walk(func):
+        if isinstance(n, ast.Call) and isinstance(n.func, ast.Name) and n.func.id in sig and n.func.id not in shadow and \
+                not any(isinstance(a, ast.Starred) for a in n.args):
+            ps = sig[n.func.id]
+            k = len(n.args)
+            if k < len(ps) and any(kw.arg == ps[k] for kw in n.keywords):
+                out.append((n, "keyword `%s` -> positional" % ps[k]))
+            elif 1 <= k <= len(ps) and not any(kw.arg is None for kw in n.keywords):
+                out.append((n, "last positional -> keyword `%s`" % ps[k - 1]))
+    return sorted(out, key=lambda t: (t[0].lineno, t[0].col_offset))
+
+
+def len_shape_nodes(func):
+    """`p.shape[0]` / `len(p)` of a parameter the docstring types as a tensor / array"""
+    from .canon import _doc_tensors, _shape_reads, rank_stable
+    out = []
+    for p_, r in sorted(_doc_tensors(func).items()):
+        if p_ in {a.arg for a in func.args.args} and rank_stable(func, p_) and (r is None or r >= 1):
+            out += [n for n, v in _shape_reads(func, p_) if v == 0]
+            out += [n for n in ast.walk(func) if isinstance(n, ast.Call) and isinstance(n.func, ast.Name) and n.func.id == "len" and
+                    len(n.args) == 1 and isinstance(n.args[0], ast.Name) and n.args[0].id == p_]
+    return sorted(out, key=lambda t: (t.lineno, t.col_offset))
+
+
+def _replace_node(func, x, new):
+    for parent in ast.walk(func):
+        for fld, val in ast.iter_fields(parent):
+            if val is x:
+                setattr(parent, fld, new)
+            elif isinstance(val, list) and any(v is x for v in val):
+                val[:] = [new if v is x else v for v in val]
+
+
+def shape_index_nodes(func):
+    """`p.shape[k]` of a parameter with a documented rank r that keeps its rank: the same extent is p.shape[k - r] / p.shape[k + r]"""
+    from .canon import _doc_ranks, _shape_reads, rank_stable
+    out = []
+    for p_, r in sorted(_doc_ranks(func).items()):
+        if p_ in {a.arg for a in func.args.args} and rank_stable(func, p_):
+            for n, v in _shape_reads(func, p_):
+                if -r <= v < r:
+                    out.append((n, v, v - r if v >= 0 else v + r))
+    return sorted(out, key=lambda t: (t[0].lineno, t[0].col_offset))
+
+
+def shape_nodes(func):
+    """`p.shape[k]` reads of a torch-tensor parameter (the docstring says torch and the function is not a numba kernel)"""
+    doc = ast.get_docstring(func) or ""
+    if "torch" not in doc or any("jit" in ast.unparse(d) for d in func.decorator_list):
+        return []
+    params = {a.arg for a in func.args.args}
+    return [n for n in ast.walk(func) if isinstance(n, ast.Subscript) and isinstance(n.ctx, ast.Load) and isinstance(n.value, ast.Attribute)
+            and n.value.attr == "shape" and isinstance(n.value.value, ast.Name) and n.value.value.id in params
+            and ((isinstance(n.slice, ast.Constant) and isinstance(n.slice.value, int)) or
+                 (isinstance(n.slice, ast.UnaryOp) and isinstance(n.slice.op, ast.USub) and isinstance(n.slice.operand, ast.Constant)))]
 
 
 def _block_path(func, block):
@@ -300,6 +476,71 @@ def apply(func, spec):
     elif kind == "pluszero":
         x = int_context_nodes(func)[spec[1]]
         x.right = ast.BinOp(left=x.right, op=ast.Add(), right=ast.Constant(value=0))
+    elif kind == "shapesize":
+        x = shape_nodes(func)[spec[1]]
+        call = ast.Call(func=ast.Attribute(value=x.value.value, attr="size", ctx=ast.Load()), args=[x.slice], keywords=[])
+        for parent in ast.walk(func):
+            for fld, val in ast.iter_fields(parent):
+                if val is x:
+                    setattr(parent, fld, call)
+                elif isinstance(val, list) and any(v is x for v in val):
+                    val[:] = [call if v is x else v for v in val]
+    elif kind == "shapeidx":
+        x, v, alt = shape_index_nodes(func)[spec[1]]
+        x.slice = ast.Constant(value=alt) if alt >= 0 else ast.UnaryOp(op=ast.USub(), operand=ast.Constant(value=-alt))
+    elif kind == "lenshape":
+        x = len_shape_nodes(func)[spec[1]]
+        if isinstance(x, ast.Call):
+            new = ast.Subscript(value=ast.Attribute(value=x.args[0], attr="shape", ctx=ast.Load()), slice=ast.Constant(value=0), ctx=ast.Load())
+        else:
+            new = ast.Call(func=ast.Name(id="len", ctx=ast.Load()), args=[x.value.value], keywords=[])
+        _replace_node(func, x, new)
+    elif kind == "kwpos":
+        x, how = kwpos_nodes(func)[spec[1]]
+        ps = package_signatures()[x.func.id]
+        k = len(x.args)
+        if how.startswith("keyword"):
+            kw = [w for w in x.keywords if w.arg == ps[k]][0]
+            x.keywords.remove(kw)
+            x.args.append(kw.value)
+        else:
+            v = x.args.pop()
+            x.keywords.insert(0, ast.keyword(arg=ps[k - 1], value=v))
+    elif kind == "dimaxis":
+        x, how = dimaxis_nodes(func)[spec[1]]
+        kw = [k for k in x.keywords if k.arg in ("dim", "axis")][0]
+        if how == "keyword -> positional":
+            x.keywords.remove(kw)
+            x.args.append(kw.value)
+        else:
+            kw.arg = "axis" if kw.arg == "dim" else "dim"
+    elif kind == "unpackshape":
+        from .canon import _shape_reads
+        st, p_, r = unpack_sites(func)[spec[1]]
+        for n_, v in _shape_reads(st, p_):
+            if -r <= v < r:
+                _replace_node(st, n_, ast.Name(id="_d%d" % (v % r), ctx=ast.Load()))
+        unpack = ast.Assign(targets=[ast.Tuple(elts=[ast.Name(id="_d%d" % k, ctx=ast.Store()) for k in range(r)], ctx=ast.Store())],
+                            value=ast.Attribute(value=ast.Name(id=p_, ctx=ast.Load()), attr="shape", ctx=ast.Load()), lineno=st.lineno)
+        blk = _containing_block(func, st)
+        blk.insert([i for i, x in enumerate(blk) if x is st][0], unpack)
+    elif kind == "enumloop":
+        lp, how = enum_loops(func)[spec[1]]
+        if how.startswith("enumerate"):
+            e, i, x = lp.iter.args[0], lp.target.elts[0], lp.target.elts[1]
+            lp.iter = ast.Call(func=ast.Name(id="range", ctx=ast.Load()), args=[ast.Call(func=ast.Name(id="len", ctx=ast.Load()), args=[e], keywords=[])], keywords=[])
+            lp.target = ast.Name(id=i.id, ctx=ast.Store())
+            lp.body.insert(0, ast.Assign(targets=[x], value=ast.Subscript(value=ast.Name(id=e.id, ctx=ast.Load()), slice=ast.Name(id=i.id, ctx=ast.Load()), ctx=ast.Load()), lineno=lp.lineno))
+        else:
+            a = lp.iter.args[0]
+            e = a.args[0].id if isinstance(a, ast.Call) else a.value.value.id
+            i = lp.target.id
+            for st in lp.body:
+                for x in [x for x in ast.walk(st) if isinstance(x, ast.Subscript) and isinstance(x.ctx, ast.Load) and isinstance(x.value, ast.Name)
+                          and x.value.id == e and isinstance(x.slice, ast.Name) and x.slice.id == i]:
+                    _replace_node(st, x, ast.Name(id="_item", ctx=ast.Load()))
+            lp.iter = ast.Call(func=ast.Name(id="enumerate", ctx=ast.Load()), args=[ast.Name(id=e, ctx=ast.Load())], keywords=[])
+            lp.target = ast.Tuple(elts=[ast.Name(id=i, ctx=ast.Store()), ast.Name(id="_item", ctx=ast.Store())], ctx=ast.Store())
     elif kind == "demorgan":
         n = nodes[spec[1]]
         t = n.test
@@ -379,7 +620,7 @@ def sample_sweep(pid, funcs, k=32, seed=0, jobs=16):
 
 def main():
     pid = sys.argv[1]
-    funcs, jobs, limit, jout = [], 16, None, None
+    funcs, jobs, limit, jout, kinds = [], 16, None, None, None
     a = sys.argv[2:]
     while a:
         x = a.pop(0)
@@ -391,7 +632,11 @@ def main():
             limit = int(a.pop(0))
         elif x == "--json":
             jout = a.pop(0)
+        elif x == "--kinds":
+            kinds = set(a.pop(0).split(","))
     tasks = tasks_for(pid, funcs)
+    if kinds:
+        tasks = [t for t in tasks if t[3][0] in kinds]
     if limit:
         tasks = tasks[:limit]
     with ProcessPoolExecutor(max_workers=jobs) as ex:
